@@ -21,7 +21,18 @@ def _preimport():
     """Import the repository's modules once, untraced, before the exploration starts: harnesses import them lazily inside
     the traced function, and an import executed under CrossHair's tracer has (rarely) failed with a spurious TypeError."""
     import importlib
+    import time
 
+    # `import primaite` reads ~/primaite/<version>/primaite_config.yaml; if another process rewrites that file at the same
+    # moment (a concurrent `primaite setup` / test run) the package fails to import with a TypeError: wait and retry
+    for _ in range(10):
+        try:
+            importlib.import_module("primaite")
+            break
+        except Exception:
+            for k in [k for k in sys.modules if k == "primaite" or k.startswith("primaite.")]:
+                del sys.modules[k]
+            time.sleep(0.5)
     for m in (
         "primaite.game.game", "primaite.game.science", "primaite.session.environment", "primaite.game.agent.rewards",
         "primaite.simulator.sim_container", "primaite.simulator.network.hardware.nodes.network.firewall",
